@@ -41,6 +41,26 @@ Definition mem (c : cls) (l : list cls) : bool := existsb (cls_eqb c) l.
 Definition subset (a b : list cls) : bool := forallb (fun c => mem c b) a.
 
 (* ---------- syntax ---------- *)
+(* the representations of a piece of source text that the Go type switches of evalExpr and
+   contextualEval distinguish (`case rel.String, rel.Bytes:` / everything else) *)
+Inductive rep :=
+| RString          (* "..."            rel.String *)
+| RBytes           (* <<"...">>        rel.Bytes  *)
+| ROffsetString    (* 1\"..."          rel.String with a non-zero offset *)
+| RCharArray       (* [47, 47, ...]    rel.Array of code points: not source *)
+| REmptyString     (* ""               the empty set: not source *)
+| REmptyBytes.     (* <<>>             the empty set: not source *)
+
+Inductive arm := ArmString | ArmBytes.
+
+(* which `case` of the type switch a representation reaches *)
+Definition src_arm (r : rep) : option arm :=
+  match r with
+  | RString | ROffsetString => Some ArmString
+  | RBytes => Some ArmBytes
+  | RCharArray | REmptyString | REmptyBytes => None
+  end.
+
 Inductive target := TLocal (file : string) | TRemote.
 
 Inductive expr :=
@@ -53,7 +73,7 @@ Inductive expr :=
 | EFn (x : string) (b : expr)
 | EApp (f a : expr)
 | ELet (x : string) (e b : expr)
-| EQuote (e : expr)                      (* a string literal whose text is the source of e *)
+| EQuote (r : rep) (e : expr)            (* a literal in representation r whose text is the source of e *)
 | EImport (t : target)                   (* //{./file}  |  //{https://host/x} *)
 | EMacro (e : expr)                      (* {:(@grammar: G, @transform: (r: \ast e)):text:} *)
 (* produced by compile only *)
@@ -64,7 +84,7 @@ Inductive expr :=
 Inductive val :=
 | VData                                  (* the literal of the generated programs: the string 'data.txt' *)
 | VRes                                   (* data computed by a library function *)
-| VSrc (e : expr)                        (* a string/byte array holding source text *)
+| VSrc (r : rep) (e : expr)              (* source text held in representation r *)
 | VPlain (c : cls) (arity : nat)         (* a library function of capability class c *)
 | VEvalValue                             (* //eval.value *)
 | VEvaluator                             (* //eval.evaluator *)
@@ -157,7 +177,7 @@ Fixpoint compile (fuel : nat) (sb : option val) (e : expr) {struct fuel} : cres 
   | O => (CFuel, [])
   | S f =>
     match e with
-    | EData | EVar _ | EPkg | ETupNil | EQuote _ => (COk e, [])
+    | EData | EVar _ | EPkg | ETupNil | EQuote _ _ => (COk e, [])
     | EDot e1 a =>
         match compile f sb e1 with
         | (COk e1', l) => (COk (EDot e1' a), l)
@@ -271,7 +291,7 @@ with eval (fuel : nat) (env : val) (e : expr) {struct fuel} : res * list eff :=
         | (Val v1, l1) => let (r, l2) := eval f (VTupCons x v1 env) e2 in (r, l1 ++ l2)
         | r => r
         end
-    | EQuote s => (Val (VSrc s), [])
+    | EQuote r s => (Val (VSrc r s), [])
     | EImport _ | EMacro _ => (Err, [])                     (* source forms never reach evaluation *)
     | EImported c => eval f VTupNil c                       (* ImportExpr.Eval: rel.EmptyScope *)
     | EMacroed m c =>                                       (* the value computed at parse time; no new effects *)
@@ -292,10 +312,18 @@ with apply (fuel : nat) (vf va : val) {struct fuel} : res * list eff :=
         end
     | VEvalValue =>
         match va with
-        | VSrc s =>
-            if q_evalvalue_full_scope q
-            then run f None VTupNil s                       (* EvaluateExpr(ctx, ".", src): empty scope *)
-            else run f (Some (w_safe w)) (VTupCons pkg (w_safe w) VTupNil) s
+        | VSrc r s =>
+            match src_arm r with
+            | Some ArmString =>                             (* case rel.String: val.String() *)
+                if q_evalvalue_full_scope q
+                then run f None VTupNil s                   (* EvaluateExpr(ctx, ".", src): empty scope *)
+                else run f (Some (w_safe w)) (VTupCons pkg (w_safe w) VTupNil) s
+            | Some ArmBytes =>                              (* case rel.Bytes: the same branch today *)
+                if q_evalvalue_full_scope q
+                then run f None VTupNil s
+                else run f (Some (w_safe w)) (VTupCons pkg (w_safe w) VTupNil) s
+            | None => (Err, [])                             (* "not a byte array or string" *)
+            end
         | _ => (Err, [])
         end
     | VEvaluator => (Val (VTupCons "eval" (VEvalWith va) VTupNil), [])
@@ -303,7 +331,12 @@ with apply (fuel : nat) (vf va : val) {struct fuel} : res * list eff :=
         match parse_cfg cfg with
         | Some (l, sc) =>
             match va with
-            | VSrc s => let env := ctx_env l sc in run f (vget pkg env) env s
+            | VSrc r s =>
+                match src_arm r with
+                | Some ArmString => let env := ctx_env l sc in run f (vget pkg env) env s   (* case rel.String *)
+                | Some ArmBytes => let env := ctx_env l sc in run f (vget pkg env) env s    (* case rel.Bytes *)
+                | None => (Err, [])
+                end
             | _ => (Err, [])
             end
         | None => (Err, [])
@@ -343,7 +376,7 @@ End Model.
    ca e: e cannot trigger the fallback in a scope that binds `//`. *)
 Fixpoint pf (e : expr) : bool :=
   match e with
-  | EData | EVar _ | ETupNil | EQuote _ | EImport _ | EMacro _ => true
+  | EData | EVar _ | ETupNil | EQuote _ _ | EImport _ | EMacro _ => true
   | EPkg => false
   | EDot e1 _ | EFn _ e1 | EImported e1 | EMacroed _ e1 => pf e1
   | ETupCons _ e1 e2 | EApp e1 e2 | ELet _ e1 e2 => pf e1 && pf e2
@@ -351,7 +384,7 @@ Fixpoint pf (e : expr) : bool :=
 
 Fixpoint ca (e : expr) : bool :=
   match e with
-  | EData | EVar _ | ETupNil | EQuote _ | EImport _ | EMacro _ | EPkg => true
+  | EData | EVar _ | ETupNil | EQuote _ _ | EImport _ | EMacro _ | EPkg => true
   | EDot e1 _ | EFn _ e1 => ca e1
   | EImported e1 => pf e1
   | EMacroed m e1 => if m then ca e1 else pf e1
@@ -366,7 +399,7 @@ Definition needs (bound : bool) (e : expr) : list cls :=
 
 Fixpoint auth (v : val) : list cls :=
   match v with
-  | VData | VRes | VSrc _ | VTupNil => []
+  | VData | VRes | VSrc _ _ | VTupNil => []
   | VPlain c _ => cap_of c
   | VEvalValue | VEvaluator => S_caps
   | VEvalWith cfg => S_caps ++ auth cfg
